@@ -25,7 +25,7 @@ Alpha ==
            "n", "+", "-", "2", ",", ">", " ", "\\", "|", "/*", "*/", "even", "of">>
     [] Family = "value" ->
          <<"x", "inherit", "var(--v)", "var(", "var(--v,)", "attr(y)", "0", "-1", "1e9", "1px", "1%", "1fr", "#fff", "\"s\"", "url(u)", "/", ",", "f()", "f(g(1))", "{}", ")",
-           "auto", "none", "normal", "bold", "calc(1px + 2%)", "!important">>
+           "auto", "none", "normal", "bold", "calc(1px + 2%)", "!important", "1 /", "/ auto", "calc(calc(var(--v)))", "attr(y url)", "attr(y,", "2 2 2 2 /">>
     [] Family = "gradient" ->
          <<"to", "top", "left", "right", "corner", "red", "blue", "1px", "50%", ",", "45deg", "0", "circle", "at", "closest-side", "ellipse">>
     [] Family = "svgpath" ->
